@@ -8,7 +8,6 @@ use crate::utils::fmt::WriteOrPanic;
 
 /// A helper type for building a JSON-encoded string on the fly.
 ///
-/// Note that the builder only supports strings without control characters.
 pub struct JsonBuilder<'a> {
     target: &'a mut String,
     indent: usize,
@@ -152,10 +151,22 @@ pub fn json_str(val: impl fmt::Display) -> impl fmt::Display {
 
     impl fmt::Write for WriteJsonStr<'_, '_> {
         fn write_str(&mut self, mut s: &str) -> fmt::Result {
-            while let Some(idx) = s.find(['"', '\\']) {
+            while let Some(idx) = s.find(|ch: char| {
+                ch == '"' || ch == '\\' || ch.is_ascii_control()
+            }) {
                 self.0.write_str(&s[..idx])?;
-                self.0.write_str("\\")?;
-                write!(self.0, "{}", char::from(s.as_bytes()[idx]))?;
+                match s.as_bytes()[idx] {
+                    b'\n' => self.0.write_str("\\n")?,
+                    b'\r' => self.0.write_str("\\r")?,
+                    b'\t' => self.0.write_str("\\t")?,
+                    ch if ch.is_ascii_control() => {
+                        write!(self.0, "\\u{:04x}", ch)?
+                    }
+                    ch => {
+                        self.0.write_str("\\")?;
+                        write!(self.0, "{}", char::from(ch))?;
+                    }
+                }
                 s = &s[idx + 1..];
             }
             self.0.write_str(s)
